@@ -78,7 +78,7 @@ Holds(c) ==
       [] c = "solid" -> \A i \in 1..Len(R.solid) : LET q == R.solid[i] IN OnBoxBoundary(q.x) \/ q.in = InBox(q.x)
       [] c = "sdf" -> \A i \in 1..Len(R.sdf) : LET q == R.sdf[i] IN
                          OnBoxBoundary(q.x) \/ ( /\ q.sx /\ q.pos = InBox(q.x)
-                                                 /\ q.s2 * Sq(KD(C, 1)) = Sq(KN(C, 1)) * BoxD2(q.x) )
+                                                 /\ q.s2 * Sq(KD(C, 1)) = 64 * Sq(KN(C, 1)) * BoxD2(q.x) )
       [] c = "meta" -> \A i \in 1..Len(R.meta) : R.meta[i].same
       [] c = "ray" -> \A i \in 1..Len(R.rays) : RayOK(R.rays[i])
       [] c = "ball" -> \A i \in 1..Len(R.balls) : BallOK(R.balls[i])
